@@ -62,6 +62,10 @@ def gen(rng, tier):
             # every truncation of the valid encoding: the buffer ends inside the varint
             for cut in range(len(e)):
                 yield 'vi.dec %d %s 0' % (kind, hexs(e[:cut]))
+                # ... and the same with octets already consumed in front of it (read offset > 0): continuation octets, so that a decoder
+                # that misplaces the end of the buffer by the offset finds something to go on with
+                for plen in (1, 2, 5):
+                    yield 'vi.dec %d %s %d' % (kind, hexs([rng.choice([0x80, 0x01, 0xff])] * plen + e[:cut]), plen)
                 if cut: yield 'vi.dec %d %s 0 %d' % (kind, hexs(e[:cut]), rng.randrange(cut + 1))
                 yield 'vi.src %d %s %d' % (kind, hexs(e[:cut]), rng.randrange(2))
             if rng.random() < 0.3:
@@ -73,6 +77,9 @@ def gen(rng, tier):
             kind = rng.randrange(4)
             yield 'vi.dec %d %s 0' % (kind, hexs(t))
             yield 'vi.src %d %s %d' % (kind, hexs(t), rng.randrange(2))
+            if n <= (6 if big else 4):
+                pre = [rng.choice(ALPHA) for _ in range(rng.randrange(1, 4))]
+                yield 'vi.dec %d %s %d' % (kind, hexs(pre + list(t)), len(pre))
     for _ in range(60000 if big else 4000):
         n = rng.randrange(6, 12)
         t = [rng.choice(ALPHA) for _ in range(n)]
